@@ -79,6 +79,11 @@ func (c *Ctx) Fail(region, symptom, format string, a ...interface{}) bool {
 		c.noteKnown(region, symptom)
 		return true
 	}
+	if surveyMode {
+		// development aid (VERIF_SURVEY=1): never used by the registered commands
+		c.classes["SURVEY-FAIL "+region+" | "+symptom]++
+		return true
+	}
 	panic(&Failure{Region: region, Symptom: symptom, Msg: msg})
 }
 
@@ -146,6 +151,8 @@ type propStats struct {
 	Rule        string            `json:"rule"`
 	hashes      map[uint64]struct{}
 }
+
+var surveyMode = os.Getenv("VERIF_SURVEY") == "1"
 
 var (
 	mu       sync.Mutex
